@@ -485,7 +485,7 @@ def build():
                      "rule patterns with <= 2 (quick) / 3 (thorough) segments over {literal, *, lit*, <f>, <<f>>} x names with <= 3 / 4 segments over the alphabet {a, b, '.', newline} on the real AggregationRule.build_regex, against an independent matcher written from the documentation",
                      "semantics of Python's re on a constructed pattern (lazy groups, `$` vs end of string): no re theory in z3 / cvc5 matches it"),
              Bounded('C08/native/buffer_contracts_cross_check', 'replay/c08_native.py', ['--len', '6'], ['--len', '8'],
-                     "every stream of <= 6 (quick) / 8 (thorough) events over {flush tick, arrival 0/1/2/3/4/6 intervals old} for MAX_AGGREGATION_INTERVALS in {0,1,2} on the real MetricBuffer with a virtual clock, distinct power-of-two values and sum as rule function (emitted value decodes to the exact value set); and the real AggregationProcessor.process over every ordered selection of 1..3 of 5 rules (one of them feeding an aggregate named like its input) x FORWARD_ALL on/off x name-lookup cache on/off x 6 names, twice (memo): every matching rule's buffer is fed once, the raw datapoint is forwarded exactly once iff FORWARD_ALL is on and no matching rule yields its own name",
+                     "every stream of <= 6 (quick) / 8 (thorough) events over {flush tick, arrival 0/1/2/3/4/6 intervals old} and structured out-of-order streams that open a young interval before older ones and then exceed MAX+2 intervals (only intervals beyond the retention horizon may go unreported) for MAX_AGGREGATION_INTERVALS in {0,1,2} on the real MetricBuffer with a virtual clock, distinct power-of-two values and sum as rule function (emitted value decodes to the exact value set); and the real AggregationProcessor.process over every ordered selection of 1..3 of 5 rules (one of them feeding an aggregate named like its input) x FORWARD_ALL on/off x name-lookup cache on/off x 6 names, twice (memo): every matching rule's buffer is fed once, the raw datapoint is forwarded exactly once iff FORWARD_ALL is on and no matching rule yields its own name",
                      "cross-check of the discharged buffer contracts on CPython; also the only judge left when a refactoring of compute_value moves the loop anchors of the sidecar contract")],
     trusted_base=['A-ENGINE', 'A-SMT', 'A-CLOCK', 'A-LIB(dict/list/sorted models)'],
     assumptions=[
